@@ -107,10 +107,14 @@ class RTDCBase(abc.ABC):
             ct = True
         else:
             # Check ancillary features data
-            if feat in self._ancillaries:
-                # already computed
+            if (feat in self._ancillaries
+                    and feat not in AncillaryFeature.feature_names):
+                # already computed (as a by-product of another feature)
                 ct = True
             elif feat in AncillaryFeature.feature_names:
+                # Note that we have to check the availability even if
+                # the feature has already been computed, because the
+                # prerequisites (e.g. the configuration) may have changed.
                 # get all instance of AncillaryFeature that
                 # check availability of the feature `feat`
                 instlist = AncillaryFeature.get_instances(feat)
